@@ -193,6 +193,10 @@ class Expr:
     def call(self, e):
         f = e.func
         args = e.args
+        dotted = src(f)
+        if dotted in self.funcs and not isinstance(f, ast.Name):
+            cn, rt = self.funcs[dotted]
+            return "(" + " ".join([cn] + [self.num(a) for a in args]) + ")", rt
         if isinstance(f, ast.Name):
             if f.id == "abs" and len(args) == 1:
                 return f"(xabs {self.num(args[0])})", "num"
@@ -418,10 +422,55 @@ def find_function(tree, qualname):
     return node
 
 
+def preprocess_body(body, site):
+    """site options that expose values which are not plain local names:
+       dict_outputs=(var, {key: out})   `var = {key: expr, ...}`        -> `out = expr` for every listed key
+       call_kwargs=(func, {kw: out})    `... func(..., kw=expr, ...)`   -> `out = expr` placed before the statement"""
+    if "dict_outputs" in site:
+        var, keys = site["dict_outputs"]
+        hit = False
+        out = []
+        for st in body:
+            if isinstance(st, ast.Assign) and len(st.targets) == 1 and isinstance(st.targets[0], ast.Name) \
+                    and st.targets[0].id == var and isinstance(st.value, ast.Dict):
+                found = {}
+                for k, v in zip(st.value.keys, st.value.values):
+                    if isinstance(k, ast.Constant) and k.value in keys:
+                        found[k.value] = v
+                if set(found) != set(keys) or len(st.value.keys) != len(keys):
+                    raise Unsupported(f"dict {var} does not have exactly the keys {sorted(keys)}")
+                for k, o in keys.items():
+                    out.append(ast.copy_location(ast.Assign(targets=[ast.Name(id=o, ctx=ast.Store())], value=found[k]), st))
+                hit = True
+            else:
+                out.append(st)
+        if not hit:
+            raise Unsupported(f"dict literal assigned to {var} not found")
+        body = out
+    if "call_kwargs" in site:
+        fname, kws = site["call_kwargs"]
+        out, hit = [], False
+        for st in body:
+            calls = [c for c in ast.walk(st) if isinstance(c, ast.Call) and src(c.func).split(".")[-1] == fname]
+            if calls and not hit:
+                c = calls[0]
+                got = {k.arg: k.value for k in c.keywords}
+                for kw, o in kws.items():
+                    if kw not in got:
+                        raise Unsupported(f"call to {fname} has no keyword {kw}")
+                    out.append(ast.copy_location(ast.Assign(targets=[ast.Name(id=o, ctx=ast.Store())], value=got[kw]), st))
+                hit = True
+            out.append(st)
+        if not hit:
+            raise Unsupported(f"call to {fname} not found")
+        body = out
+    return body
+
+
 def translate_kernel(tree, site):
     """site: dict(func, params{name:type}, outputs[names] | 'return', name, optional funcs, stop_before)"""
     fn = find_function(tree, site["func"])
-    body = fn.body
+    body = preprocess_body(list(fn.body), site)
     K = Kernel(site["params"], site.get("funcs"))
     outputs = site["outputs"]
     ret_expr = None
